@@ -17,7 +17,8 @@ CritFermat(at, par) == IF at.steps >= 0 /\ at.steps < par.max_steps THEN "must" 
 \* primes agreeing on r low and s high bits: r >= 3 and r + s >= bits/4 + 2
 InHighLowRegion(at) == at.r >= 3 /\ 4 * (at.r + at.s) >= at.bits + 8
 \* q = next_prime(p + 2^(L-e)) for the six documented e, primes of >= 384 bits
-CritUpperDiff(at) == IF at.L >= 384 /\ at.nbits = 2 * at.L /\ at.dindex \in 0..5 THEN "must" ELSE "none"
+\* at.L is the documented prime size n.bit_length() \div 2 (moduli of even and of odd length alike)
+CritUpperDiff(at) == IF at.L >= 384 /\ at.L = at.nbits \div 2 /\ at.dindex \in 0..5 THEN "must" ELSE "none"
 CritUnseeded(at) == IF at.listed THEN "must" ELSE "none"
 \* word repetition: w in the default list, w <= bits/16, at most 32 deviating low bits
 CritPattern(at) == IF at.in_default /\ 16 * at.w <= at.bits /\ at.dev <= 32 THEN "must" ELSE "none"
